@@ -1092,11 +1092,7 @@ Section GenFile.
   Qed.
 
   (* ---------- the whole file ---------- *)
-  Variable tG : dict.
-  Hypothesis Hxr : xref_and_trailer_x decompress_ref can_ref FG gxpos = SOk (x0G, tG).
-  Hypothesis HtG : dict_get tG K_Prev = None /\ dict_has tG K_Encrypt = false.
-
-  Theorem loads_objstm :
+  Definition loaded_as (tG : dict) : Prop :=
     exists d, load_ext decompress_ref can_ref (s_junk st ++ FG) = LOk d XTStream /\
       d_version d = a_version a /\ d_trailer d = tG /\
       (forall tp, In tp ptops -> lookup (d_objects d) (fst (fst tp)) = Some (loaded_top tp)) /\
@@ -1107,17 +1103,159 @@ Section GenFile.
          (exists tp, In tp ptops /\ fst (fst tp) = id) \/
          (exists s n, In s (s_ostms st) /\ In n (os_members s) /\ id = (n, 0)) \/
          (exists s, In s (s_ostms st) /\ id = (os_id s, 0)) \/ id = (gxid, 0)).
-  Proof.
-    destruct frame_factsG as [F1 [F2 F3]]. destruct HtG as [Hp He].
-    assert (R : dict_swap_remove tG K_Prev = tG) by (unfold dict_swap_remove, dict_has; rewrite Hp; reflexivity).
-    eexists. split.
-    - apply (load_ext_frame_loop decompress_ref can_ref FG XG objfG posfG memfG (s_junk st) FG (a_version a) gxpos x0G tG x0G tG);
-        try assumption; try reflexivity.
-      + rewrite Hp, R. reflexivity.
-      + exact max_id_smallG.
-      + exact entry_specG.
-    - cbn [d_version d_trailer d_objects]. split; [reflexivity|]. split; [reflexivity|].
-      split; [exact loaded_plain|]. split; [intros s n Hs Hn; apply loaded_member; assumption|].
-      split; [exact loaded_cont|]. split; [exact loaded_xref|exact loaded_only].
-  Qed.
+
+  Section Whole.
+    Variable tG : dict.
+    Hypothesis Hxr : xref_and_trailer_x decompress_ref can_ref FG gxpos = SOk (x0G, tG).
+    Hypothesis HtG : dict_get tG K_Prev = None /\ dict_has tG K_Encrypt = false.
+
+    Theorem loads_objstm : loaded_as tG.
+    Proof.
+      destruct frame_factsG as [F1 [F2 F3]]. destruct HtG as [Hp He].
+      assert (R : dict_swap_remove tG K_Prev = tG) by (unfold dict_swap_remove, dict_has; rewrite Hp; reflexivity).
+      eexists. split.
+      - apply (load_ext_frame_loop decompress_ref can_ref FG XG objfG posfG memfG (s_junk st) FG (a_version a) gxpos x0G tG x0G tG);
+          try assumption; try reflexivity.
+        + rewrite Hp, R. reflexivity.
+        + exact max_id_smallG.
+        + exact entry_specG.
+      - cbn [d_version d_trailer d_objects]. split; [reflexivity|]. split; [reflexivity|].
+        split; [exact loaded_plain|]. split; [intros s n Hs Hn; apply loaded_member; assumption|].
+        split; [exact loaded_cont|]. split; [exact loaded_xref|exact loaded_only].
+    Qed.
+  End Whole.
+
+  (* ======== ending A: no filter on the cross-reference stream ======== *)
+  Section PlainX.
+    Hypothesis Hpf : fent = [].
+    Hypothesis Hpd : data = rawG.
+    Definition t0GS : dict := LoadProofsStream.sr3 gd1.
+
+    Lemma xr_parseGS : xref_and_trailer_x decompress_ref can_ref FG gxpos = SOk (x0G, t0GS).
+    Proof.
+      unfold xref_and_trailer_x. rewrite from_gxpos. unfold TAILG. rewrite xobjG_not_table. unfold indirect_x.
+      match goal with |- context [indirect_with ?b ?s0 ?e ?l] => pose proof (indirect_with_agrees b s0 e l) as A end.
+      rewrite xobjG_parse in A. destruct A as [pos [-> _]].
+      change (stream_new ddG data) with (OStream gd1 data). cbv iota.
+      unfold filters_modelled, can_ref. rewrite orb_true_r. unfold decode_xref_stream.
+      assert (Hf : dict_has gd1 K_Filter = false).
+      { unfold dict_has. rewrite gd1_none; [reflexivity|discriminate|].
+        rewrite xdG_get_other; [apply Hxd|reflexivity..|rewrite Hpf; reflexivity]. }
+      rewrite Hf, Hpd, (decode_fromG gd1 gd1_size gd1_w eq_refl). reflexivity.
+    Qed.
+
+    Lemma t0GS_clean : dict_get t0GS K_Prev = None /\ dict_has t0GS K_Encrypt = false.
+    Proof.
+      unfold t0GS, dict_has. rewrite !(LoadProofsStream.sr3_get gd1 _ gd1_wf).
+      change (bytes_eqb K_Prev Xref.K_Index || bytes_eqb K_Prev Xref.K_W || bytes_eqb K_Prev K_Length) with false.
+      change (bytes_eqb K_Encrypt Xref.K_Index || bytes_eqb K_Encrypt Xref.K_W || bytes_eqb K_Encrypt K_Length) with false.
+      cbv iota. rewrite !gd1_absent; try reflexivity; try discriminate; try apply Hxd. split; reflexivity.
+    Qed.
+
+    Theorem loads_objstm_plain : loaded_as t0GS.
+    Proof. exact (loads_objstm t0GS xr_parseGS t0GS_clean). Qed.
+  End PlainX.
+
+  (* ======== ending B: a filter chain on the cross-reference stream ======== *)
+  Section FilteredX.
+    Variable f : sfilter.
+    Variable arr : bool.
+    Hypothesis Hflt : f <> SfNone.
+    Hypothesis Henc : apply_filter f (N.of_nat (gw0 + gw1 + gw2)) arr rawG = (data, fent).
+    Hypothesis Hdp : dict_get (a_trailer a) K_DecodeParms = None.
+    Hypothesis Hwmax : N.of_nat (gw0 + gw1 + gw2) <= Png.USIZE_MAX.
+
+    Definition gd2 : dict :=
+      dict_set (dict_swap_remove (dict_swap_remove gd1 K_DecodeParms) K_Filter) K_Length (OInt (Z.of_nat (length rawG))).
+    Definition t0GF : dict := LoadProofsStream.sr3 gd2.
+
+    Lemma gd2_wf : dict_wf gd2.
+    Proof. apply dict_set_wf. repeat apply swap_remove_wf. exact gd1_wf. Qed.
+
+    Lemma gd2_get k : k <> K_Length -> k <> K_Filter -> k <> K_DecodeParms -> dict_get gd2 k = dict_get gd1 k.
+    Proof.
+      intros N1 N2 N3. unfold gd2. rewrite dict_get_set_other by exact N1.
+      rewrite dict_get_swap_remove_other; [|apply swap_remove_wf; exact gd1_wf|exact N2].
+      apply dict_get_swap_remove_other; [exact gd1_wf|exact N3].
+    Qed.
+
+    Lemma xdG_get_fent k :
+      bytes_eqb (bs "Type") k = false -> bytes_eqb RefWriter.K_Size k = false -> bytes_eqb (bs "W") k = false ->
+      bytes_eqb (bs "Index") k = false -> bytes_eqb RefWriter.K_Length k = false -> dict_get (a_trailer a) k = None ->
+      dict_get xdG k = dict_get fent k.
+    Proof.
+      intros E1 E2 E3 E4 E5 Ht. unfold xdG, xdG_of. cbn [app dict_get]. rewrite E1, E2, E3.
+      rewrite !dict_get_appG.
+      assert (Hi : dict_get idx_partG k = None).
+      { destruct idx_partG_cases as [->|[-> _]]; [cbn [dict_get]; rewrite E4; reflexivity|reflexivity]. }
+      rewrite Hi, Ht. destruct (dict_get fent k); [reflexivity|]. cbn [dict_get]. rewrite E5. reflexivity.
+    Qed.
+
+    Lemma gd1_get_fent k :
+      bytes_eqb (bs "Type") k = false -> bytes_eqb RefWriter.K_Size k = false -> bytes_eqb (bs "W") k = false ->
+      bytes_eqb (bs "Index") k = false -> bytes_eqb RefWriter.K_Length k = false -> dict_get (a_trailer a) k = None ->
+      dict_get gd1 k = dict_get fent k.
+    Proof.
+      intros E1 E2 E3 E4 E5 Ht.
+      assert (Hk : k <> K_Length) by (intro K; subst k; rewrite bytes_eqb_refl in E5; discriminate E5).
+      rewrite (gd1_get k Hk). pose proof (xdG_get_fent k E1 E2 E3 E4 E5 Ht) as Hx.
+      destruct (dict_get fent k) as [v|] eqn:Ef.
+      - unfold ddG. apply dict_get_denote_plain; [exact Hx|].
+        assert (Ef' : dict_get (snd (apply_filter f (N.of_nat (gw0 + gw1 + gw2)) arr rawG)) k = Some v) by (rewrite Henc; exact Ef).
+        exact (fent_plain _ _ _ _ _ _ Ef').
+      - unfold ddG. apply dict_get_denote_none. exact Hx.
+    Qed.
+
+    Lemma rawG_rows : rawG <> [] /\ length rawG = (length entsG * (gw0 + gw1 + gw2))%nat.
+    Proof.
+      assert (Hl : length rawG = (length entsG * (gw0 + gw1 + gw2))%nat) by (unfold rawG, entsG; apply enc_sections_length).
+      split; [|exact Hl]. intro E. rewrite E in Hl. cbn [length] in Hl.
+      pose proof widthsG_sum as Hw. pose proof entsG_xid as Hx. destruct entsG as [|e0 es]; [contradiction|]. cbn [length] in Hl. nia.
+    Qed.
+
+    Lemma decompress_gd1 : decompress_ref gd1 data = Some (gd2, rawG).
+    Proof.
+      destruct rawG_rows as [Hne Hl].
+      assert (Ed : data = fst (apply_filter f (N.of_nat (gw0 + gw1 + gw2)) arr rawG)) by (rewrite Henc; reflexivity).
+      assert (Ef : fent = snd (apply_filter f (N.of_nat (gw0 + gw1 + gw2)) arr rawG)) by (rewrite Henc; reflexivity).
+      rewrite Ed. unfold gd2.
+      apply decompress_ref_ok.
+      apply (chain_decodes f (gw0 + gw1 + gw2) (length entsG) arr rawG gd1 Hflt); try assumption.
+      - pose proof widthsG_sum. lia.
+      - rewrite <- Ef. apply gd1_get_fent; try reflexivity. apply Hxd.
+      - rewrite <- Ef. apply gd1_get_fent; try reflexivity. exact Hdp.
+    Qed.
+
+    Lemma gd1_has_filter : dict_has gd1 K_Filter = true.
+    Proof.
+      unfold dict_has. rewrite gd1_get_fent; try reflexivity; [|apply Hxd].
+      pose proof (fent_has_filter f (N.of_nat (gw0 + gw1 + gw2)) arr rawG Hflt) as H. rewrite Henc in H. cbn [snd] in H.
+      destruct (dict_get fent K_Filter); [reflexivity|contradiction].
+    Qed.
+
+    Lemma xr_parseGF : xref_and_trailer_x decompress_ref can_ref FG gxpos = SOk (x0G, t0GF).
+    Proof.
+      unfold xref_and_trailer_x. rewrite from_gxpos. unfold TAILG. rewrite xobjG_not_table. unfold indirect_x.
+      match goal with |- context [indirect_with ?b ?s0 ?e ?l] => pose proof (indirect_with_agrees b s0 e l) as A end.
+      rewrite xobjG_parse in A. destruct A as [pos [-> _]].
+      change (stream_new ddG data) with (OStream gd1 data). cbv iota.
+      unfold filters_modelled, can_ref. rewrite orb_true_r. unfold decode_xref_stream. rewrite gd1_has_filter, decompress_gd1.
+      rewrite (decode_fromG gd2); [reflexivity| | |].
+      - rewrite gd2_get by discriminate. exact gd1_size.
+      - rewrite gd2_get by discriminate. exact gd1_w.
+      - apply gd2_get; discriminate.
+    Qed.
+
+    Lemma t0GF_clean : dict_get t0GF K_Prev = None /\ dict_has t0GF K_Encrypt = false.
+    Proof.
+      unfold t0GF, dict_has. rewrite !(LoadProofsStream.sr3_get gd2 _ gd2_wf).
+      change (bytes_eqb K_Prev Xref.K_Index || bytes_eqb K_Prev Xref.K_W || bytes_eqb K_Prev K_Length) with false.
+      change (bytes_eqb K_Encrypt Xref.K_Index || bytes_eqb K_Encrypt Xref.K_W || bytes_eqb K_Encrypt K_Length) with false.
+      cbv iota. rewrite !gd2_get by discriminate.
+      rewrite !gd1_absent; try reflexivity; try discriminate; try apply Hxd. split; reflexivity.
+    Qed.
+
+    Theorem loads_objstm_filtered : loaded_as t0GF.
+    Proof. exact (loads_objstm t0GF xr_parseGF t0GF_clean). Qed.
+  End FilteredX.
 End GenFile.
